@@ -461,3 +461,23 @@ def parse_coq_nlist(log_text, after="="):
     if not body:
         return []
     return [int(re.sub(r"%N", "", t).strip()) for t in body.replace("\n", " ").split(";") if t.strip()]
+
+
+def pref_options():
+    """preference name -> the values Rules/prefs.yaml documents for it (its default and the capitalised words of its comment)"""
+    out, stack = {}, []
+    stop = {"Any", "Change", "FIX", "Auto", "Highlight", "Note", "See", "The", "Here", "Grade", "Guide", "Technical", "Material", "MathML", "Unicode", "AT"}
+    for line in open(os.path.join(RULES, "prefs.yaml"), encoding="utf-8"):
+        m = re.match(r"^(\s*)([A-Za-z_]+):\s*(.*?)\s*(#\s*(.*))?$", line.rstrip("\n"))
+        if not m:
+            continue
+        ind, key, val, comment = len(m.group(1)), m.group(2), m.group(3), m.group(5) or ""
+        while stack and stack[-1][0] >= ind:
+            stack.pop()
+        if val == "":
+            stack.append((ind, key))
+            continue
+        name = "_".join([k for _, k in stack[1:]] + [key])
+        words = [w for w in re.split(r"[,/()\s]+", comment.split(" -- ")[-1]) if re.match(r"^[A-Z][A-Za-z]+$", w) and w not in stop]
+        out[name] = [val.strip("\"'")] + words[:8]
+    return out
